@@ -54,6 +54,7 @@ func (x *Run) callValue(fr *Frame, st *State, fv Val, cc *ssa.CallCommon, args [
 		if cc != nil {
 			rt = cc.Signature().Results()
 		}
+		x.havocSliceArgs(fr, st, site, "")
 		r := x.extResults(st, rt)
 		// named like a closure of the library function ("f$fn"), so that event
 		// patterns for f itself do not match it
@@ -97,6 +98,7 @@ func (x *Run) dynamicUnknown(fr *Frame, st *State, what string, sig *types.Signa
 	x.opaque["havoc-all:"+what+" in "+x.fnShort(fr.fn)] = true
 	x.mu.Unlock()
 	x.havocAll(st)
+	x.havocSliceArgs(fr, st, site, "")
 	st.events = append(st.events, Event{Name: "unknown-call"})
 	var ret Val
 	if sig != nil {
@@ -224,7 +226,9 @@ func (x *Run) callFunc(fr *Frame, st *State, fn *ssa.Function, args []Val, bindi
 	}
 	// --- contract on callee ---
 	if con := x.spec.contractFor(name); con != nil && !x.inContractOf(fr, con) {
-		return x.useContract(fr, st, con, args, site)
+		outs := x.useContract(fr, st, con, args, site)
+		x.havocSliceArgs(fr, st, site, fn.String())
+		return outs
 	}
 	// --- spec functions ---
 	if x.spec.pure[name] && (fr.inSpec() || fr.inPure()) && fn.Signature.Results().Len() == 1 && len(fn.Blocks) > 0 && !x.onStack(fr, fn) {
@@ -454,6 +458,7 @@ func (x *Run) opaqueExternal(fr *Frame, st *State, fn *ssa.Function, args []Val,
 		for _, a := range args {
 			x.havocPointee(st, a)
 		}
+		x.havocSliceArgs(fr, st, site, fn.String())
 	}
 	ret := x.extResults(st, fn.Signature.Results())
 	// function values handed out by library code (context.CancelFunc, ...) are
@@ -471,6 +476,66 @@ func (x *Run) opaqueExternal(fr *Frame, st *State, fn *ssa.Function, args []Val,
 	}
 	st.events = append(st.events, Event{Name: "call:" + fn.String(), Args: args, Ret: ret})
 	return single(st, ret)
+}
+
+// havocSliceArgs: a callee whose body is not executed may write through the
+// byte (basic-element) slices it is handed. Slices are values in this
+// encoding (A-SLICE), so the SSA values naming the slice - the argument and
+// the slices / array it was cut from - are re-bound to unknown contents of
+// the same length. Callees documented not to modify the buffer
+// (io.Writer-style Write* methods) and pure library functions are exempt.
+func (x *Run) havocSliceArgs(fr *Frame, st *State, site ssa.Instruction, callee string) {
+	ci, ok := site.(ssa.CallInstruction)
+	if !ok || fr == nil || fr.inPure() || fr.inSpec() {
+		return
+	}
+	if x.spec.keepsArgs[callee] {
+		x.mu.Lock()
+		x.trusted["keeps-args:"+callee+" does not write through its slice arguments"] = true
+		x.mu.Unlock()
+		return
+	}
+	short := callee
+	if i := strings.LastIndexAny(short, ".)"); i >= 0 {
+		short = short[i+1:]
+	}
+	if strings.HasPrefix(short, "Write") || strings.HasPrefix(short, "write") {
+		return
+	}
+	for _, a := range ci.Common().Args {
+		x.havocSliceRoot(fr, st, a)
+	}
+}
+
+func (x *Run) havocSliceRoot(fr *Frame, st *State, v ssa.Value) {
+	for depth := 0; depth < 8; depth++ {
+		switch t := types.Unalias(v.Type()).Underlying().(type) {
+		case *types.Slice:
+			if _, basic := types.Unalias(t.Elem()).Underlying().(*types.Basic); !basic {
+				return
+			}
+			if cur, ok := fr.env[v]; ok && cur.T != "" && cur.S == x.d.sortOf(v.Type()) {
+				fresh := x.freshVal(st, "buf", v.Type())
+				fr.env[v] = Val{T: x.mkSlice(cur.S, x.sliceArr(fresh), x.sliceLen(cur)), S: cur.S, Ty: cur.Ty}
+			}
+			if sl, ok := v.(*ssa.Slice); ok {
+				v = sl.X
+				continue
+			}
+			return
+		case *types.Pointer:
+			if arr, ok := types.Unalias(t.Elem()).Underlying().(*types.Array); ok {
+				if _, basic := types.Unalias(arr.Elem()).Underlying().(*types.Basic); basic {
+					if cur, ok := fr.env[v]; ok {
+						x.havocPointee(st, cur)
+					}
+				}
+			}
+			return
+		default:
+			return
+		}
+	}
 }
 
 func (x *Run) havocPointee(st *State, a Val) {
@@ -531,7 +596,9 @@ func (x *Run) invoke(fr *Frame, st *State, recv Val, cc *ssa.CallCommon, args []
 			return x.useSelfCall(fr, st, nil, all, site)
 		}
 		if !(fr.con == con && fr.mode == ModeContractVerify) {
-			return x.useContract(fr, st, con, all, site)
+			outs := x.useContract(fr, st, con, all, site)
+			x.havocSliceArgs(fr, st, site, full)
+			return outs
 		}
 	}
 	if x.spec.getters[full] {
@@ -572,6 +639,7 @@ func (x *Run) invoke(fr *Frame, st *State, recv Val, cc *ssa.CallCommon, args []
 	for _, a := range args {
 		x.havocPointee(st, a)
 	}
+	x.havocSliceArgs(fr, st, site, full)
 	iret := x.extResults(st, cc.Signature().Results())
 	st.events = append(st.events, Event{Name: "invoke:" + full, Args: all, Ret: iret})
 	return single(st, iret)
